@@ -89,22 +89,30 @@ def make_inputs(case, vt, rnd, maxin, small=False):
     total = 1
     for n in names:
         total *= len(doms[n])
-    combos = []
-    if total <= maxin:
-        combos = list(itertools.product(*[doms[n] for n in names]))
-    else:
-        seen = set()
-        # corners first: all-first, all-last, then random
+    # Deterministic, prefix-stable order: the inputs used with a smaller cap are always a subset of those used with
+    # a larger one, and do not depend on VERIF_SEED (the seed selects programs, not inputs).  This keeps the
+    # known-findings baseline (established with the largest cap) valid for every tier and seed.
+    import zlib
+    prnd = random.Random(zlib.crc32(json.dumps(body, sort_keys=True).encode()))
+    order, seen = [], set()
+
+    def add(t):
+        if t not in seen:
+            seen.add(t)
+            order.append(t)
+    if names:
         for pick in (0, -1):
-            seen.add(tuple(doms[n][pick] for n in names))
-        # each value of each variable at least once
+            add(tuple(doms[n][pick] for n in names))
         for i, n in enumerate(names):
             for v in doms[n]:
-                t = tuple(v if j == i else rnd.choice(doms[m]) for j, m in enumerate(names))
-                seen.add(t)
-        while len(seen) < maxin:
-            seen.add(tuple(rnd.choice(doms[n]) for n in names))
-        combos = sorted(seen, key=lambda t: json.dumps(t))[:maxin] if len(seen) > maxin else sorted(seen, key=lambda t: json.dumps(t))
+                add(tuple(v if j == i else prnd.choice(doms[m]) for j, m in enumerate(names)))
+        tries = 0
+        while len(order) < min(total, 128) and tries < 4000:
+            add(tuple(prnd.choice(doms[n]) for n in names))
+            tries += 1
+    else:
+        order = [()]
+    combos = order[:maxin]
     inputs = []
     for t in combos:
         inp = {}
